@@ -287,7 +287,7 @@ def ban_instance(D, lead):
             N_arr = np.einsum('...a,...ab,...bc,...c->...', np.conj(inp['w']), inp['noise'], inp['noise'], inp['w'])
             D_arr = np.einsum('...a,...ab,...b->...', np.conj(inp['w']), inp['noise'], inp['w'])
             Nn, Dn = cells(N_arr)[li], cells(D_arr)[li]
-            if sp.symbolic:
+            if sp.symbolic and all(i_ == 0 for i_ in li):          # (stacked input: the chain is spelled out for the first index, the others are evaluated natively)
                 P = [[cells(inp['noise'])[li + (i, j)] for j in range(D)] for i in range(D)]
                 wv = [w[li + (i,)] for i in range(D)]
                 Pw = [sp.sum(P[i][j] * wv[j] for j in range(D)) for i in range(D)]
@@ -348,8 +348,15 @@ def rayleigh_bounded_instance():
             tgt = np.ascontiguousarray(tgt.real)
         if inp['real'] in ('noise', 'both'):
             noi = np.ascontiguousarray(noi.real)
-        res = {'tgt': tgt, 'noi': noi, 'probes': cn(20, *lead, D)}
+        if inp['seed'] % 3 == 0:
+            # sensor axes in column-major memory (Hermitian-transposed views, MATLAB-style arrays): same values
+            tgt = np.conj(np.swapaxes(np.ascontiguousarray(np.conj(np.swapaxes(tgt, -1, -2))), -1, -2))
+            noi = np.conj(np.swapaxes(np.ascontiguousarray(np.conj(np.swapaxes(noi, -1, -2))), -1, -2))
+        t0, n0 = tgt.copy(), noi.copy()
+        res = {'tgt': t0, 'noi': n0, 'probes': cn(20, *lead, D)}
         res['gev'] = bf.get_gev_vector(tgt, noi, use_eig=inp['use_eig'])
+        res['untouched'] = bool(np.array_equal(tgt, t0) and np.array_equal(noi, n0))
+        tgt, noi = t0, n0
         res['pca'] = bf.get_pca_vector(tgt, scaling=inp['scaling'])
         res['ban'] = bf.blind_analytic_normalization(res['gev'], noi)
         res['ban_scaled'] = bf.blind_analytic_normalization(res['gev'] * 7.3, noi)
@@ -370,6 +377,7 @@ def rayleigh_bounded_instance():
         tgt, noi = out['tgt'], out['noi']
         snr = q(out['gev'], tgt) / q(out['gev'], noi)
         lam = np.max(np.real(np.linalg.eigvals(np.linalg.solve(noi, tgt))), axis=-1)
+        yield 'psd-arguments-untouched', out['untouched']
         yield 'gev-snr-equals-largest-generalised-eigenvalue', bool(np.allclose(snr, lam, rtol=1e-6))
         ps = q(out['probes'], tgt) / q(out['probes'], noi)
         yield 'gev-snr-not-exceeded-by-probes', bool(np.all(ps <= snr * (1 + 1e-9)))
